@@ -283,7 +283,46 @@ def specs():
     s('qgamma')(lambda mp, cb, arg: mp.qgamma(arg(3.5), 0.25))
     s('nstr')(lambda mp, cb, arg: mp.nstr(mp.pi, 30))
     s('mpf_str')(lambda mp, cb, arg: mp.mpf('1.25e-3') + mp.mpf(arg(2)))
+    # --- cross-context: the call is made in the fp or iv context (mp._fp / mp._iv are the global fp / iv); what is recorded
+    #     is still (mp.prec, mp.dps) — plus (iv.prec, iv.dps) for the iv specs.  First the functions whose implementation
+    #     reaches from the calling context for another one (ctx._mp / ctx._fp / ctx._iv: rszeta.coef builds the Riemann-Siegel
+    #     coefficients in ctx._mp and changes ITS precision; zetazeros.* call ctx._fp.siegelz; primepi2 uses ctx._iv), with
+    #     arguments that reach those lines (|t| > 500*53 for the Riemann-Siegel code in fp; every spec starts in a fresh
+    #     worker, so the per-context coefficient cache is empty), then a sample of ordinary fp / iv calls.
+    s('fp_siegelz_rs')(lambda mp, cb, arg: mp._fp.siegelz(1.0e6))
+    s('fp_siegelz_rs_deriv')(lambda mp, cb, arg: mp._fp.siegelz(2.0e6, derivative=1))
+    s('fp_zeta_rs')(lambda mp, cb, arg: mp._fp.zeta(0.5 + 1.0e6j))
+    s('fp_zeta_rs_deriv')(lambda mp, cb, arg: mp._fp.zeta(0.5 + 3.0e6j, derivative=1))
+    s('fp_zeta_rs_twice')(lambda mp, cb, arg: (mp._fp.zeta(0.5 + 1.0e5j), mp._fp.zeta(0.25 + 4.0e7j)))
+    s('fp_nzeros')(lambda mp, cb, arg: mp._fp.nzeros(10 ** 6))
+    s('fp_zetazero')(lambda mp, cb, arg: mp._fp.zetazero(10 ** 6))
+    s('fp_primepi2')(lambda mp, cb, arg: mp._fp.primepi2(100))
+    s('nzeros_rs')(lambda mp, cb, arg: mp.nzeros(arg(10 ** 6)))
+    s('primepi2')(lambda mp, cb, arg: mp.primepi2(arg(3000)))
+    s('clone_nzeros_rs')(lambda mp, cb, arg: mp.clone().nzeros(10 ** 6))
+    s('fp_quad')(lambda mp, cb, arg: mp._fp.quad(cb(lambda x: mp._fp.exp(-x * x)), [0, 1]))
+    s('fp_findroot')(lambda mp, cb, arg: mp._fp.findroot(cb(lambda x: x * x - 2), 1.0))
+    s('fp_diff')(lambda mp, cb, arg: mp._fp.diff(cb(mp._fp.sin), 1.0))
+    s('fp_nsum')(lambda mp, cb, arg: mp._fp.nsum(cb(lambda k: 1.0 / k ** 2), [1, mp._fp.inf]))
+    s('fp_gamma')(lambda mp, cb, arg: mp._fp.gamma(3.5 + 2j))
+    s('fp_hyp2f1')(lambda mp, cb, arg: mp._fp.hyp2f1(1, 2, 3.5, 0.95))
+    s('fp_besselj')(lambda mp, cb, arg: mp._fp.besselj(2, 10.5))
+    s('fp_airyai')(lambda mp, cb, arg: mp._fp.airyai(-50.0))
+    s('fp_erf')(lambda mp, cb, arg: mp._fp.erf(1 + 2j))
+    s('fp_bernoulli')(lambda mp, cb, arg: mp._fp.bernoulli(20))
+    s('fp_lu_solve')(lambda mp, cb, arg: mp._fp.lu_solve(mp._fp.matrix([[4, 1], [1, 3]]), [1, 2]))
+    s('iv_exp')(lambda mp, cb, arg: mp._iv.exp(mp._iv.mpf([1, 2])))
+    s('iv_sin')(lambda mp, cb, arg: mp._iv.sin(mp._iv.mpf([1, 2])))
+    s('iv_gamma')(lambda mp, cb, arg: mp._iv.gamma(mp._iv.mpf('1.3')))
+    s('iv_pi')(lambda mp, cb, arg: +mp._iv.pi)
+    s('iv_det')(lambda mp, cb, arg: mp._iv.det(mp._iv.matrix([[4, 1], [1, 3]])))
+    s('iv_mpf_str')(lambda mp, cb, arg: mp._iv.mpf('0.1') + mp._iv.mpf(2))
     return S
+
+
+def is_cross(name):
+    """specs whose call is made in (or goes through) another context than mp"""
+    return name.startswith(('fp_', 'iv_', 'clone_')) or name in ('nzeros_rs', 'primepi2')
 
 
 def _with(mgr, body):
@@ -303,6 +342,8 @@ def spec_entry(name):
     attribute of mp (`hyp2f1_z1` -> hyp2f1, `lu_solve` -> lu_solve, `jtheta2_c` -> jtheta)"""
     from mpmath import mp
     parts = name.split('_')
+    if len(parts) > 1 and parts[0] in ('fp', 'iv', 'clone'):      # the context the call is made in
+        parts = parts[1:]
     for i in range(len(parts), 0, -1):
         cand = '_'.join(parts[:i])
         if hasattr(mp, cand): return cand
@@ -358,7 +399,13 @@ def run_case(task, nb_sites=None):
     fn = SPECS[name]
     mp.prec = prec
     mp.trap_complex = False
-    before = (mp.prec, mp.dps)
+    iv = mpmath.iv
+    if name.startswith('iv_'):
+        iv.prec = prec + 11          # not mp's precision, not the default
+        cells = lambda: (mp.prec, mp.dps, iv.prec, iv.dps)
+    else:
+        cells = lambda: (mp.prec, mp.dps)
+    before = cells()
     fault = Fault(k if mode in ('b', 'c') else 0, exc)
     counting = {'b': 0}
     def cb(f):
@@ -403,7 +450,7 @@ def run_case(task, nb_sites=None):
     finally:
         sys.setprofile(None)
         for d, n, f in undo: d[n] = f
-    after = (mp.prec, mp.dps)
+    after = cells()
     out.update(before=before, after=after, calls=fault.n, fired=fault.fired, leak=(before != after))
     if mode == 'cover': out['hit'] = sorted(hit)
     return out
@@ -480,10 +527,14 @@ def entry_job(args):
         res['skipped'] = True
         return res
     w = Worker(timeout, nb_sites)
+    fresh = is_cross(name)      # the code under test runs on a miss of a per-context cache only: every run in a new process
     def run(task):
         if deadline is not None and time.time() > deadline + 30:
             res['skipped'] = True
             return dict(task, outcome='budget', leak=None, calls=0)
+        if fresh and res['runs']:
+            w.close()
+            w.spawn()
         r = w.run(task)
         res['runs'] += 1
         if r.get('fired'): res['fired'] += 1
